@@ -300,8 +300,72 @@ pub fn run_part_a(rep: &mut Report) {
     rep.push(p);
 }
 
+/// Evaluation budget: with `LessThanN::evaluations(b)` the final count overshoots b by less than one pass.
+pub fn run_budget(rep: &mut Report) {
+    use crate::engine::tape::{self, Cfg, Outcome, MENU4};
+    use crate::subject::templates::{HProblem, LoopProbe};
+    use mahf::conditions::LessThanN;
+    use mahf::heuristics::{es, ga};
+    use std::sync::Mutex;
+    let mut p = Part::new("evaluation-budget.overshoot");
+    let seed = rep.seed;
+    for b in [1u32, 5, 6, 9, 12] {
+        for which in 0..2 {
+            let log = Arc::new(Mutex::new(vec![]));
+            let l2 = log.clone();
+            let body = move || {
+                let problem = RealP::new(2, -1.0, 2.0, FKind::Sphere, Instr::new());
+                let cond: Box<dyn mahf::Condition<RealP>> = Box::new(LoopProbe { inner: LessThanN::evaluations(b), log: l2.clone() });
+                let config = if which == 0 {
+                    ga::real_ga(ga::RealProblemParameters { population_size: 4, tournament_size: 2, pm: 0.5, deviation: 0.1, pc: 0.8 }, cond)
+                } else {
+                    es::real_mu_plus_lambda_es::<RealP, ()>(es::RealProblemParameters { population_size: 2, lambda: 3, deviation: 0.2 }, cond)
+                }
+                .map_err(|e| format!("{:#}", e))?;
+                let st = config
+                    .optimize_with(&problem, |st| {
+                        st.insert(crate::engine::tape::scripted_random(0));
+                        st.insert_evaluator(Sequential::<RealP>::new());
+                        Ok(())
+                    })
+                    .map_err(|e| format!("{:#}", e))?;
+                Ok::<(u32, u64), String>((st.evaluations(), problem.instr().calls()))
+            };
+            let cfg = Cfg::deviations(&MENU4, 0, seed);
+            let (out, _) = tape::run_once(&cfg, &[], body);
+            p.transitions += 1;
+            p.traces += 1;
+            p.states += 1;
+            let per_pass = if which == 0 { 4 } else { 3 };
+            let name = if which == 0 { "real_ga(pop 4)" } else { "real_es(mu 2, lambda 3)" };
+            match out {
+                Outcome::Done(Ok((evals, calls))) => {
+                    p.outcome(format!("budget={}:evals={}", b, evals));
+                    if evals as u64 != calls || evals >= b + per_pass || evals < b {
+                        p.violate(
+                            format!("C06 budget template={} overshoot", if which == 0 { "real_ga" } else { "real_es" }),
+                            format!("{} with an evaluation budget of {}: {} evaluations reported, {} objective calls, one loop pass evaluates {}; expected budget <= count < budget + pass", name, b, evals, calls, per_pass),
+                            json!({"kind": "budget"}),
+                        );
+                    }
+                }
+                Outcome::Done(Err(e)) => p.violate("C06 budget run-failed".to_string(), e, json!({"kind": "budget"})),
+                Outcome::Panic(m) => p.violate("C06 budget panic".to_string(), m, json!({"kind": "budget"})),
+                _ => {}
+            }
+        }
+    }
+    p.sample(json!({"template": "real_ga(pop 4)", "budget": 9, "expected": "9 <= evaluations < 13"}));
+    rep.push(p);
+}
+
 pub fn replay_a(case: &Value) -> Result<Vec<(String, String)>, String> {
     match case["kind"].as_str().unwrap_or("") {
+        "budget" => {
+            let mut r = Report::new("C06", Tier::Quick, 0);
+            run_budget(&mut r);
+            Ok(r.violations().into_iter().map(|v| (v.sig.clone(), v.detail.clone())).collect())
+        }
         "missing" => Ok(check_missing_evaluator(case["want_a"].as_bool().unwrap_or(false)).into_iter().collect()),
         "evalstep" => {
             let want = case["case"].as_str().ok_or("no case")?;
